@@ -376,7 +376,7 @@ static Script gen(Rng& r, int size)
         for (int k = 0; k < nshared; ++k) {
             held[k] = 1;
         }
-        int next = t * 10;
+        int next = t * 1000;  // ids of different threads never collide (re-entrant code adds id + 100 / + 200)
         int n = 3 + r.below(6 + 3 * size);
         for (int i = 0; i < n; ++i) {
             int c = r.below(10);
